@@ -31,16 +31,217 @@ def strip_casts(n):
 
 class Resolver:
     """maps immutable, singly-defined `let` locals of one function to their initialisers, so that normal forms do not
-    depend on the names of such locals"""
+    depend on the names of such locals.
+
+    `lookup(lid, at)` is position aware: the initialiser is returned for the use `at` only if nothing it reads (fields of
+    self, mutable locals, transitively through other immutable locals) can have been written between the `let` and that
+    use — no write in source order between them, and no write inside a loop that contains the use but not the `let`.
+    A use inside the writing statement itself (`self.i = first + 1`) is evaluated before the write and is fine.
+    Without `at` the initialiser is returned unconditionally (callers that only look at the shape of the definition)."""
 
     def __init__(self, fn):
         self.defs = {}
-        for x in hirq.walk(fn["hir"]):
-            if x["k"] == "Let" and "init" in x and x["pat"]["k"] == "Bind" and "Mut" not in x["pat"].get("mode", "") and "sub" not in x["pat"]:
-                self.defs[x["pat"]["id"]] = x["init"]
+        self.lets = {}
+        self.pos = {}
+        self.end = {}
+        self._reads = {}
+        self.keeps_len = set()  # ids of write nodes that cannot change the length of the container they write
+        self.writes = []       # (node, place) ; place = ("self", field) | ("self", "*") | ("local", id)
+        self.loops = []
+        root = fn["hir"]
+        order = list(hirq.walk(root))
+        for i, x in enumerate(order):
+            self.pos[id(x)] = i
+        # subtree end = max position in the subtree (computed by a reverse sweep over parents)
+        par = {}
+        for x in order:
+            for c in hirq.children(x):
+                par[id(c)] = x
+        for x in order:
+            self.end[id(x)] = self.pos[id(x)]
+        for x in reversed(order):
+            p_ = par.get(id(x))
+            if p_ is not None and self.end[id(x)] > self.end[id(p_)]:
+                self.end[id(p_)] = self.end[id(x)]
+        self.mut_locals = set()
+        for x in order:
+            k = x["k"]
+            if k == "Let" and x["pat"]["k"] == "Bind" and "sub" not in x["pat"]:
+                if "Mut" in x["pat"].get("mode", ""):
+                    self.mut_locals.add(x["pat"]["id"])
+                elif "init" in x:
+                    self.defs[x["pat"]["id"]] = x["init"]
+                    self.lets[x["pat"]["id"]] = x
+            elif k == "Loop":
+                self.loops.append(x)
+        for x in order:
+            k = x["k"]
+            if k in ("Assign", "AssignOp"):
+                pl = _place(x["l"])
+                if pl:
+                    self.writes.append((x, pl))
+                    if _through_index(x["l"]):
+                        self.keeps_len.add(id(x))
+            elif k == "MethodCall":
+                rt = x.get("recv_ty", "")
+                if rt.startswith("&mut "):
+                    pl = _place(x["recv"])
+                    if pl:
+                        self.writes.append((x, pl))
+                        if x["name"] in LEN_PRESERVING or _through_index(x["recv"]):
+                            self.keeps_len.add(id(x))
+            elif k == "AddrOf" and x.get("mut"):
+                pl = _place(x["e"])
+                if pl:
+                    self.writes.append((x, pl))
 
-    def lookup(self, lid):
-        return self.defs.get(lid)
+    def reads(self, lid, _seen=None):
+        """places the initialiser of lid reads, through immutable locals"""
+        if lid in self._reads:
+            return self._reads[lid]
+        _seen = _seen or set()
+        out = set()
+        if lid in _seen:
+            return out
+        _seen.add(lid)
+        d = self.defs.get(lid)
+        if d is not None:
+            # places that the initialiser only uses as the target of an effect (`rng` in `rng.next_u32()`, the receiver of a
+            # `&mut self` method): the local names the value produced THEN; later effects on the same target do not change it
+            targets = set()
+            for x in hirq.walk(d):
+                if x["k"] == "MethodCall" and x.get("recv_ty", "").startswith("&mut "):
+                    for y in hirq.walk(x["recv"]):
+                        targets.add(id(y))
+                elif x["k"] == "AddrOf" and x.get("mut"):
+                    for y in hirq.walk(x["e"]):
+                        targets.add(id(y))
+                elif x["k"] == "Path" and "local" in x["res"] and x.get("ty", "").startswith("&mut "):
+                    targets.add(id(x))
+            for x in hirq.walk(d):
+                if x["k"] == "MethodCall" and x["name"] == "len" and not x["args"]:
+                    pl = _place(x["recv"])
+                    if pl and pl[0] == "self" and pl[1] != "*" and not _through_index(x["recv"]):
+                        out.add(("self", pl[1], "len"))
+                        for y in hirq.walk(x["recv"]):
+                            targets.add(id(y))
+            for x in hirq.walk(d):
+                if id(x) in targets:
+                    continue
+                if x["k"] == "Field":
+                    b = x["base"]
+                    while b["k"] == "AddrOf" or (b["k"] == "Unary" and b["op"] == "*"):
+                        b = b["e"]
+                    if b["k"] == "Path" and "local" in b["res"] and b["res"]["name"] == "self":
+                        out.add(("self", x["name"]))
+                elif x["k"] == "Path" and "local" in x["res"]:
+                    l2 = x["res"]["local"]
+                    if x["res"]["name"] == "self":
+                        continue
+                    if l2 in self.defs:
+                        out |= self.reads(l2, _seen)
+                    else:
+                        out.add(("local", l2))
+                elif x["k"] == "MethodCall" and hirq.is_node(x.get("recv")):
+                    b = strip(x["recv"])
+                    if b["k"] == "Path" and "local" in b["res"] and b["res"]["name"] == "self":
+                        out.add(("self", "*"))
+        self._reads[lid] = out
+        return out
+
+    def stable(self, lid, at):
+        let = self.lets.get(lid)
+        pu = self.pos.get(id(at))
+        if let is None or pu is None:
+            return True
+        rd = self.reads(lid)
+        if not rd:
+            return True
+        p_def = self.end[id(let)]
+        anyself = any(r[0] == "self" for r in rd)
+        outer = [lp for lp in self.loops if self.pos[id(lp)] <= pu <= self.end[id(lp)]
+                 and not (self.pos[id(lp)] <= self.pos[id(let)] <= self.end[id(lp)])]
+        for (w, pl) in self.writes:
+            hit = pl in rd or (pl == ("self", "*") and anyself) or (pl[0] == "self" and ("self", "*") in rd)
+            if not hit and pl[0] == "self" and (pl[0], pl[1], "len") in rd and id(w) not in self.keeps_len:
+                hit = True
+            if not hit:
+                continue
+            pw, ew = self.pos[id(w)], self.end[id(w)]
+            if pw <= pu <= ew:
+                continue
+            if p_def < pw < pu:
+                return False
+            if any(self.pos[id(lp)] <= pw <= self.end[id(lp)] for lp in outer):
+                return False
+        return True
+
+    def lookup(self, lid, at=None):
+        d = self.defs.get(lid)
+        if d is None or at is None:
+            return d
+        return d if self.stable(lid, at) else None
+
+    def unchecked(self):
+        """a view that returns the initialiser whatever happened since: for rules that ask what a local WAS computed from and
+        decide the ordering of the later writes themselves"""
+        return _Unchecked(self)
+
+
+class _Unchecked:
+    def __init__(self, r):
+        self._r = r
+        self.alpha = getattr(r, "alpha", None)
+
+    def lookup(self, lid, at=None):
+        return self._r.defs.get(lid)
+
+    def __getattr__(self, name):
+        return getattr(self._r, name)
+
+
+LEN_PRESERVING = {"swap", "fill", "sort", "sort_unstable", "sort_by", "sort_unstable_by", "reverse", "iter_mut", "copy_from_slice",
+                  "rotate_left", "rotate_right", "fill_with", "as_mut_slice", "get_mut", "last_mut", "first_mut"}
+
+
+def _through_index(n):
+    cur = n
+    while True:
+        k = cur["k"]
+        if k == "Index":
+            return True
+        if k == "AddrOf" or (k == "Unary" and cur["op"] == "*"):
+            cur = cur["e"]
+        elif k == "Field":
+            cur = cur["base"]
+        else:
+            return False
+
+
+def _place(n):
+    """("self", field) / ("self", "*") / ("local", id) written through the place expression n, or None"""
+    cur = n
+    while True:
+        k = cur["k"]
+        if k == "AddrOf" or (k == "Unary" and cur["op"] == "*"):
+            cur = cur["e"]
+        elif k == "Index":
+            cur = cur["base"]
+        elif k == "Field":
+            b = cur["base"]
+            while b["k"] == "AddrOf" or (b["k"] == "Unary" and b["op"] == "*"):
+                b = b["e"]
+            if b["k"] == "Path" and "local" in b["res"] and b["res"]["name"] == "self":
+                return ("self", cur["name"])
+            cur = b
+        elif k == "MethodCall" and cur["name"] in ("as_mut", "as_mut_slice", "iter_mut", "borrow_mut", "deref_mut", "get_mut") :
+            cur = cur["recv"]
+        elif k == "Path" and "local" in cur["res"]:
+            if cur["res"]["name"] == "self":
+                return ("self", "*")
+            return ("local", cur["res"]["local"])
+        else:
+            return None
 
 
 class AlphaResolver(Resolver):
@@ -103,7 +304,7 @@ def nf(n, casts=False, alias=None, res=None, _depth=0):
     n = strip_casts(n) if casts else strip(n)
     k = n["k"]
     if res is not None and k == "Path" and "local" in n["res"] and _depth < 8:
-        d = res.lookup(n["res"]["local"])
+        d = res.lookup(n["res"]["local"], n)
         if d is not None:
             return nf(d, casts, alias, res, _depth + 1)
     r = lambda x: nf(x, casts, alias, res, _depth)
@@ -189,6 +390,17 @@ def nf(n, casts=False, alias=None, res=None, _depth=0):
 FLIP = {"<": ">=", "<=": ">", ">": "<=", ">=": "<", "==": "!=", "!=": "=="}
 
 
+def nf_def(n, res, casts=True):
+    """normal form of what the expression n WAS computed from: if n is an immutable local, its initialiser read at the
+    position of its `let` (whatever was written since — the caller decides the ordering); otherwise nf(n)"""
+    m = strip_casts(n) if casts else strip(n)
+    if res is not None and m["k"] == "Path" and "local" in m["res"]:
+        d = res.defs.get(m["res"]["local"])
+        if d is not None:
+            return nf(d, casts, None, res)
+    return nf(n, casts, None, res)
+
+
 def atoms(cond, polarity=True, casts=True, res=None):
     """facts known to hold when `cond` evaluates to `polarity`.
     returns a list of items, each either ('cmp', lhs_nf, op, rhs_nf) with op in < <= == != (others
@@ -197,7 +409,7 @@ def atoms(cond, polarity=True, casts=True, res=None):
     n = strip(cond)
     k = n["k"]
     if res is not None and k == "Path" and "local" in n["res"]:
-        d = res.lookup(n["res"]["local"])
+        d = res.lookup(n["res"]["local"], n)
         if d is not None:
             return atoms(d, polarity, casts, res)
     if k == "Unary" and n["op"] == "!":
@@ -227,11 +439,18 @@ def atoms(cond, polarity=True, casts=True, res=None):
 
 
 def all_conditions(tree, node, stop=None, res=None):
-    """facts holding at `node` from every enclosing If (innermost first)"""
+    """facts holding at `node` from every enclosing If (innermost first), with earlier `if c {continue}` statements read as
+    nesting under !c. An arm of a source-level `match` and a `continue` buried in an earlier statement give an opaque
+    ('truth', 'unmodelled ...', True) item, so that a rule that enumerates the admissible conditions does not pass over them."""
     out = []
     for (c, pol) in tree.conditions(node, stop):
         if isinstance(pol, bool):
             out.extend(atoms(c, pol, res=res))
+        elif pol == "opaque":
+            out.append(("truth", "unmodelled: no `continue` taken in the statement at line %s" % c.get("sp", [0, "?"])[1], True))
+        elif isinstance(pol, tuple) and pol[0] == "arm" and c.get("src") == "Normal" and not hirq.from_expansion(c):
+            arm = c["arms"][pol[1]]
+            out.append(("truth", "unmodelled: match arm `%s` of `%s`" % (hirq.show_pat(arm["pat"])[:40], nf(c["e"], True)[:40]), True))
     return out
 
 
